@@ -3,6 +3,7 @@ import Pyvsc.Model.Values
 import Pyvsc.Model.Expr
 import Pyvsc.Model.RandSets
 import Pyvsc.Model.Solve
+import Pyvsc.Model.Bounds
 import Pyvsc.Spec.Sem
 import Pyvsc.Spec.Values
 /-!
@@ -222,8 +223,109 @@ def enumOk (fs : Array Field) (env : Array Int) (rfields : List Nat) : Bool :=
 
 def jList (f : α → Json) (l : List α) : Json := Json.arr (l.map f).toArray
 
+/-! ### bounds and swizzle candidates -/
+
+open Pyvsc.Bounds in
+/-- recover the `in` structure from the node `mkIn` builds -/
+partial def decodeIn (lhsOut : Option Expr) : Expr → Option (Expr × List RangeItem)
+  | .bin .or acc t =>
+      match decodeIn lhsOut acc, decodeIn lhsOut t with
+      | some (l, a), some (_, b) => some (l, a ++ b)
+      | _, _ => none
+  | .bin .eq l e => some (l, [RangeItem.single e])
+  | .bin .and (.bin .ge l lo) (.bin .le _ hi) => some (l, [RangeItem.range lo hi])
+  | _ => none
+
+open Pyvsc.Bounds in
+def btopOf : Stmt → BTop
+  | .expr (.reset e) => match decodeIn none e with
+      | some (l, items) => .inn l items
+      | none => .other
+  | .expr (.bin op l r) => .cmp op l r
+  | _ => .other
+
+structure DrawSt where
+  rest : List (Int × Int × Int)
+  ok : Bool := true
+  used : Nat := 0
+
+/-- consume the next recorded draw; it must have been requested with the bounds the model expects -/
+def draw (d : DrawSt) (lo hi : Int) : Int × DrawSt :=
+  let (a, b) := if hi < lo then (hi, lo) else (lo, hi)
+  match d.rest with
+  | [] => (a, { d with ok := false })
+  | (x, y, r) :: rest => (r, { rest := rest, ok := d.ok && x == a && y == b && a ≤ r && r ≤ b, used := d.used + 1 })
+
+def popAt (l : List α) (i : Nat) : Option α × List α := (l[i]?, l.eraseIdx i)
+
+open Pyvsc.Bounds in
+/-- `swizzle_field_l`: candidate expressions of one group in the order they are tried -/
+def swizzleGroup (doms : Array RL) (fields : List Nat) (d : DrawSt) : List Expr × DrawSt := Id.run do
+  let mut fl := fields
+  let mut d := d
+  let mut nodes : List Expr := []
+  for _ in [0:4] do
+    if fl.isEmpty then break
+    let (idx, d1) := draw d 0 ((fl.length : Int) - 1)
+    d := d1
+    let (fo, rest) := popAt fl idx.toNat
+    fl := rest
+    match fo with
+    | none => pure ()
+    | some f =>
+      let dm := doms.getD f []
+      if !isEmpty dm then
+        let (tr, d2) := if dm.length > 1 then
+            let (k, d2) := draw d 0 ((dm.length : Int) - 1)
+            (dm.getD k.toNat (0, 0), d2)
+          else (dm.getD 0 (0, 0), d)
+        d := d2
+        if tr.1 == tr.2 then
+          nodes := nodes ++ [Expr.bin .eq (.fld f) (.lit tr.1 false 32)]
+        else
+          let maxval := max tr.1.natAbs tr.2.natAbs
+          let dw := bitLength maxval
+          let (bp, d3) := draw d tr.1 tr.2
+          d := d3
+          nodes := nodes ++ swizzleExprs f bp dw
+  let mut order : List Expr := []
+  while !nodes.isEmpty do
+    let (idx, d1) := draw d 0 ((nodes.length : Int) - 1)
+    d := d1
+    let (no, rest) := popAt nodes idx.toNat
+    nodes := rest
+    match no with
+    | some n => order := order ++ [n]
+    | none => nodes := []
+  return (order, d)
+
+/-- `RandInfoBuilder.build`: ordered groups of a rand set from the solve_order pairs
+    `(before, after)` (toposort levels restricted to the set's fields in field order; after repair
+    5c7e970 the fields no directive mentions form a last group) -/
+def orderGroups (rsFields : List Nat) (pairs : List (Nat × Nat)) : Option (List (List Nat)) :=
+  let depsOf : Nat → List Nat := fun a => (pairs.filter (fun p => p.2 == a && p.1 != a)).map (·.1)
+  let keys := rsFields.filter fun f => pairs.any (fun p => p.2 == f)
+  if keys.isEmpty then none
+  else
+    let nodes := (keys ++ keys.flatMap depsOf).eraseDups
+    let rec levels (fuel : Nat) (remaining : List Nat) (done : List Nat) (acc : List (List Nat)) : List (List Nat) :=
+      match fuel with
+      | 0 => acc
+      | fuel + 1 =>
+        if remaining.isEmpty then acc
+        else
+          let lvl := remaining.filter fun n => (if keys.contains n then depsOf n else []).all fun d => done.contains d || !nodes.contains d
+          if lvl.isEmpty then acc
+          else levels fuel (remaining.filter fun n => !lvl.contains n) (done ++ lvl) (acc ++ [lvl])
+    let lv := levels (nodes.length + 1) nodes [] []
+    let groups := (lv.map fun fs => rsFields.filter fun f => fs.contains f).filter fun g => !g.isEmpty
+    let ordered := groups.flatten
+    let rest := rsFields.filter fun f => !ordered.contains f
+    some (if rest.isEmpty then groups else groups ++ [rest])
+
 def runCall (fields : Array Field) (tops : List Stmt) (recs : List Json) (limit : Nat)
-    (implFinal : Option (Array Int)) (allF : List Nat) : Except String Json := do
+    (implFinal : Option (Array Int)) (allF : List Nat) (boundTops : List Stmt := [])
+    (draws : Option (List (Int × Int × Int)) := none) (orderPairs : List (Nat × Nat) := []) : Except String Json := do
   let Γ := envΓ fields
   let vals0 : Array Int := fields.map (·.val)
   let vn : Nat → String := fun i => match fields[i]? with | some f => f.name | none => s!"?{i}"
@@ -231,11 +333,43 @@ def runCall (fields : Array Field) (tops : List Stmt) (recs : List Json) (limit 
   let rsl := RandSets.randSets st
   let dropped := (List.range tops.length).filter fun k => !(rsl.any fun rs => rs.hard.any (fun c => c.1 == k) )
       && (match tops[k]? with | some (.soft _) => false | _ => true)
+  -- inferred ranges (VariableBoundVisitor) over the enabled blocks, then the draws of the call
+  let btops := (if boundTops.isEmpty then tops else boundTops).map btopOf
+  let initDoms : Array Bounds.RL := fields.map fun f => match f.enums with
+    | some es => Bounds.initEnum es
+    | none => Bounds.initScalar f.ty.w f.ty.s
+  let bst := Bounds.process Γ (envρ vals0) initDoms btops
+  let mut dst : DrawSt := ⟨draws.getD [], true, 0⟩
+  let mut unconVals : List (Nat × Int) := []
+  for i in (RandSets.unconstrained allF st).filter fun i => (Γ i).rand do
+    let dm := bst.doms.getD i []
+    if dm.length == 1 then
+      let r0 := dm.getD 0 (0, 0)
+      let (r, d1) := draw dst r0.1 r0.2
+      dst := d1
+      unconVals := unconVals ++ [(i, r)]
+    else
+      let (kk, d1) := draw dst 0 ((dm.length : Int) - 1)
+      dst := d1
+      unconVals := unconVals ++ [(i, (dm.getD kk.toNat (0, 0)).1)]
   let mut vals := vals0
   let mut outs : Array Json := #[]
   let mut k := 0
   for rs in rsl do
     let ρ := envρ vals0
+    -- swizzle candidates the model expects, from the recorded draws
+    let groupsF : List (List Nat) := match orderGroups rs.fields orderPairs with
+      | some gs => gs
+      | none => [rs.fields.filter fun i => (Γ i).rand]
+    let mut candsJ : List Json := []
+    let drawsBefore := dst.used
+    if draws.isSome && (recs[k]?.map fun r => (getA r "answers").toOption.map (·.length) |>.getD 0).getD 0 > 1 then
+      for g in groupsF do
+        if !g.isEmpty then
+          let (es, d1) := swizzleGroup bst.doms g dst
+          dst := d1
+          candsJ := candsJ ++ [jList (fun e => Json.str (toSexp vn (lower Γ ρ e 0))) es]
+    let drawsUsed := dst.used - drawsBefore
     let pre : List Bv := rs.fields.filterMap fun i =>
       match fields[i]? with
       | some f => if f.ty.rand then (match f.enums with
@@ -330,7 +464,11 @@ def runCall (fields : Array Field) (tops : List Stmt) (recs : List Json) (limit 
       ("final", jList (fun (p : Nat × Int) => Json.arr #[Json.str (vn p.1), jInt p.2]) final),
       ("refFail", jList jNat refFail), ("typeFail", jList (fun i => Json.str (vn i)) typeFail),
       ("specSat", specSat), ("softRef", softRef), ("softHonoured", softHonoured),
-      ("bits", jNat bits)]
+      ("bits", jNat bits),
+      ("cands", Json.arr candsJ.toArray), ("drawsOk", Json.bool dst.ok), ("drawsUsed", jNat drawsUsed),
+      ("order", match orderGroups rs.fields orderPairs with
+        | some gs => jList (fun g => jList (fun i => Json.str (vn i)) g) gs
+        | none => Json.null)]
     k := k + 1
   let valsO := match implFinal with | some a => a | none => vals
   let droppedFail := dropped.filter fun k => match tops[k]? with
@@ -338,6 +476,10 @@ def runCall (fields : Array Field) (tops : List Stmt) (recs : List Json) (limit 
     | none => false
   let nonrandChanged := allF.filter fun i => !(Γ i).rand && valsO[i]?.getD 0 != vals0[i]?.getD 0
   pure <| Json.mkObj [
+    ("bounds", Json.mkObj ((List.range fields.size).map fun i => (vn i, jList (fun (r : Int × Int) => Json.arr #[jInt r.1, jInt r.2]) (bst.doms.getD i [])))),
+    ("boundsErr", Json.bool bst.err),
+    ("unconVals", jList (fun (p : Nat × Int) => Json.arr #[Json.str (vn p.1), jInt p.2]) unconVals),
+    ("drawsOkAll", Json.bool dst.ok), ("drawsLeft", jNat dst.rest.length),
     ("droppedFail", jList jNat droppedFail),
     ("nonrandChanged", jList (fun i => Json.str (vn i)) nonrandChanged),
     ("randsets", Json.arr outs),
@@ -354,7 +496,21 @@ def handleCall (j : Json) : Except String Json := do
   let implFinal : Option (Array Int) := match getOpt j "implFinal" with
     | some a => (do pure (← (← a.getArr?).toList.mapM (·.getInt?)).toArray : Except String (Array Int)).toOption
     | none => none
-  runCall fields tops recs limit implFinal (List.range fields.size)
+  let draws : Option (List (Int × Int × Int)) := match getOpt j "draws" with
+    | some d => (do
+        let l ← d.getArr?
+        l.toList.mapM fun t => do
+          let a ← t.getArr?
+          pure ((← (a[0]?.getD Json.null).getInt?), (← (a[1]?.getD Json.null).getInt?), (← (a[2]?.getD Json.null).getInt?)) : Except String _).toOption
+    | none => none
+  let orderPairs : List (Nat × Nat) := match getOpt j "order" with
+    | some d => ((do
+        let l ← d.getArr?
+        l.toList.mapM fun t => do
+          let a ← t.getArr?
+          pure (((← (a[0]?.getD Json.null).getInt?)).toNat, ((← (a[1]?.getD Json.null).getInt?)).toNat) : Except String _).toOption).getD []
+    | none => []
+  runCall fields tops recs limit implFinal (List.range fields.size) [] draws orderPairs
 
 /-- `z.expr`: value of one expression under an environment, reference and lowered side by side -/
 def handleExpr (j : Json) : Except String Json := do
